@@ -374,6 +374,58 @@ func scenarioOmni(t *traceWriter, rng *rand.Rand) {
 		}
 		dstub.mu.Unlock()
 		t.line("OMD store=%s pushonly_asked=%d fed_logs_pushed=%d of=%d", storeKind, b2i(pa > 0), np, len(logs))
+		// roll-back: a log (each feeder type in turn) presents a validly signed checkpoint SMALLER than the witnessed one for a
+		// few polls, then comes back and grows: the service must neither stop nor move, and must follow again afterwards
+		for i, rl := range logs {
+			if i == 1 {
+				continue // tilesA is forked below
+			}
+			last := sched[i][steps-1]
+			if last < 3 {
+				continue
+			}
+			wsz, wroot, _ := served(rl)
+			rl.setSz(last / 2)
+			time.Sleep(8 * opc.FeedInterval)
+			sz, root, valid := served(rl)
+			t.line("OMF store=%s phase=rollback log=%s witnessed=%d:%s => served=%d:%s valid=%d", storeKind, rl.name, wsz, hx([]byte(wroot)), sz, hx([]byte(root)), valid)
+			if ex, msg := exited(); ex {
+				t.line("OMX store=%s phase=rollback-%s => exited=1 err=%s", storeKind, rl.name, hx([]byte(msg)))
+				break
+			}
+			rl.setSz(last)
+		}
+		if ex, _ := exited(); !ex {
+			// every log is back at its last size plus a little: all are followed again
+			grown := make([]uint64, len(logs))
+			for i, rl := range logs {
+				grown[i] = sched[i][steps-1]
+				if i != 1 && grown[i]+3 <= rl.br.size() {
+					grown[i] += 3
+				}
+				rl.setSz(grown[i])
+			}
+			deadline := time.Now().Add(200 * opc.FeedInterval)
+			for time.Now().Before(deadline) {
+				all := true
+				for i, rl := range logs {
+					sz, _, _ := served(rl)
+					all = all && sz == grown[i]
+				}
+				if all {
+					break
+				}
+				time.Sleep(opc.FeedInterval / 2)
+			}
+			for i, rl := range logs {
+				sz, root, valid := served(rl)
+				want := base64.StdEncoding.EncodeToString(rl.br.root(grown[i]))
+				t.line("OM store=%s step=after-rollback log=%s want=%d wantroot=%s => served=%d root=%s valid=%d", storeKind, rl.name, grown[i], hx([]byte(want)), sz, hx([]byte(root)), valid)
+			}
+			for i := range logs {
+				sched[i][steps-1] = grown[i] // the fork phase below starts from here
+			}
+		}
 		// fork: tilesA starts serving a history that is not an extension of what was witnessed; with a restart in between
 		l := logs[1]
 		wsz, wroot, _ := served(l)
